@@ -9,7 +9,7 @@ decided.
 """
 import ast
 
-from ..astutil import call_simple_name, dotted, exc_name, guard_chain, names_in, short
+from ..astutil import call_simple_name, dotted, exc_name, guard_chain, names_in, pm, pmall, short
 from ..cfg import cfg_of
 from ..effects import describe, get_effects
 from ..loader import AnalysisError, ClassInfo, External, FunctionInfo, body_walk, norm, walk_no_nested
@@ -267,9 +267,9 @@ def rule_deepcopy(ctx):
     rel = f.module.relpath
     t = norm(f.node)
     rets = [r for r in body_walk(f.node) if isinstance(r, ast.Return)]
-    ok = "copy.deepcopy(self._inner, memo)" in t or "copy.deepcopy(self._inner)" in t
+    ok = "copy.deepcopy(self._inner, %s)" % f.params[1] in t or "copy.deepcopy(self._inner)" in t
     okr = False
-    if len(rets) == 1 and isinstance(rets[0].value, ast.Call) and norm(rets[0].value.func) == "cls":
+    if len(rets) == 1 and isinstance(rets[0].value, ast.Call):
         splat = [k.value for k in rets[0].value.keywords if k.arg is None]
         if len(splat) == 1 and isinstance(splat[0], ast.Name):
             # the splatted mapping is the deep copy
@@ -279,5 +279,6 @@ def rule_deepcopy(ctx):
     run.check(ok and okr, R, key(rel, f.qualname, "constructor-gets-deep-copy"),
               "the copy is built from data that still shares mutable state with the original", file=rel, line=f.node.lineno,
               function=f.qualname, expected="cls(**copy.deepcopy(self._inner, memo))", found=short(f.node, 240))
-    run.check("cls = type(self)" in t, R, key(rel, f.qualname, "same-class"), "the copy is not of the same class", file=rel,
+    run.check(pmall(t, "$c = type(self)", "return $c(") is not None or "return type(self)(" in t, R, key(rel, f.qualname, "same-class"),
+              "the copy is not of the same class", file=rel,
               line=f.node.lineno, function=f.qualname, expected="cls = type(self)", found="changed")
